@@ -118,7 +118,7 @@ func (x *X) call1(f *Frame, st *State, call *ast.CallExpr) []Value {
 		return x.unknownCall(f, st, call, sig, name, nil, args)
 	}
 	if fn != nil {
-		x.checkCallsites(f, st, fn, args, call)
+		x.checkCallsites(f, st, fn, recv, args, call)
 		if h, ok := nativeFuncs[name]; ok {
 			return h(x, f, st, call, recv, args)
 		}
@@ -344,8 +344,9 @@ func (x *X) applyContract(f *Frame, st *State, spec *FuncSpec, fn *types.Func, r
 }
 
 // checkCallsites: caller-side requirements pinned to one call site (callee name + ordinal),
-// evaluated in the caller's scope just before the call; arg0..argN name the actual arguments.
-func (x *X) checkCallsites(f *Frame, st *State, fn *types.Func, args []Value, call *ast.CallExpr) {
+// evaluated in the caller's scope just before the call; arg0..argN name the actual arguments,
+// recv the receiver of a method call.
+func (x *X) checkCallsites(f *Frame, st *State, fn *types.Func, recv *Value, args []Value, call *ast.CallExpr) {
 	if f.spec == nil || !f.top || call == nil {
 		return
 	}
@@ -362,6 +363,9 @@ func (x *X) checkCallsites(f *Frame, st *State, fn *types.Func, args []Value, ca
 		}
 		for i, a := range args {
 			nn[fmt.Sprintf("arg%d", i)] = a
+		}
+		if recv != nil {
+			nn["recv"] = *recv
 		}
 		cenv.names = nn
 		t := x.specBool(cenv, x.clause(&cs.Clause))
